@@ -129,6 +129,46 @@ Theorem C06_delete_order_free : forall k snap t r,
 Proof. exact untag_fold_order_free. Qed.
 Print Assumptions C06_delete_order_free.
 
+(* ---- "no operation ever returned bytes that do not match its descriptor" ---- *)
+
+(* memory: for every history, what Fetch returns has the digest AND the size of the request *)
+Theorem C06_fetch_matches_memory : forall h d hash len,
+  snd (mem_step (fst (run mem_step mem_init h)) (Fetch d)) = OBytes hash len ->
+  hash = d_dig d /\ len = d_size d.
+Proof. exact mem_fetch_matches. Qed.
+Print Assumptions C06_fetch_matches_memory.
+
+(* OCI: content is found by digest (the size field of the request is not consulted, as in
+   the code): for every history, canonical or not, the returned bytes hash to the requested digest *)
+Theorem C06_fetch_matches_oci : forall h d hash len,
+  snd (oci_step (fst (run oci_step oci_init h)) (Fetch d)) = OBytes hash len -> hash = d_dig d.
+Proof. exact oci_fetch_matches. Qed.
+Print Assumptions C06_fetch_matches_oci.
+
+(* under concurrency: at EVERY configuration reachable by any schedule of atomic steps (not
+   only at quiescence) a Fetch returns matching bytes *)
+Theorem C06_conc_fetch_matches_memory : forall (progs : list (list op)) (sched : list nat) d hash len,
+  snd (mem_step (c_store (mconf_run (mconf_init progs) sched)) (Fetch d)) = OBytes hash len ->
+  hash = d_dig d /\ len = d_size d.
+Proof. exact conc_fetch_matches_memory. Qed.
+Print Assumptions C06_conc_fetch_matches_memory.
+
+Theorem C06_conc_fetch_matches_oci :
+  forall (U : N -> gkey) (B : N -> blob) (progs : list (list op)) (sched : list nat) d hash len,
+  (forall g, k_dig (U g) = g) -> Forall (wf_op U B) (concat progs) ->
+  snd (oci_step (oc_store (oconf_run (oconf_init progs) sched)) (Fetch d)) = OBytes hash len ->
+  hash = d_dig d.
+Proof. exact conc_fetch_matches_oci. Qed.
+Print Assumptions C06_conc_fetch_matches_oci.
+
+Theorem C06_conc_fetch_matches_file :
+  forall (ig ov : bool) (progs : list (list op)) (sched : list nat) d hash len,
+  Forall untitled (concat progs) -> Forall no_alias (concat progs) ->
+  snd (file_step true ig ov (fc_store (fconf_run true ig ov (fconf_init progs) sched)) (Fetch d)) = FO (OBytes hash len) ->
+  hash = d_dig d.
+Proof. exact conc_fetch_matches_file. Qed.
+Print Assumptions C06_conc_fetch_matches_file.
+
 (* ---- concurrency: memory store ---- *)
 
 (* Goroutines run programs of operations; each operation is split into its atomic steps
